@@ -111,3 +111,61 @@ func VC12_SameConnection() {
 	}
 	rt.Reach("end")
 }
+
+// VC12_Backlog: the property's largest shape — NC connections x NT transactions (8 x 20), all announcing the same sent-by,
+// every request relayed before any response arrives (responses delayed), then the responses in the order given by
+// "oldest-first": each response (a provisional one first for the oldest transaction) is written to the connection its
+// request arrived on, and no connection is opened. Branches are concrete and pairwise distinct; what is symbolic is small.
+func VC12_Backlog() {
+	NC, NT := rt.Param("NC"), rt.Param("NT")
+	support := rt.Bool("received-support")
+	rt.DistinctUUIDs()       // 160 generated branches: collisions between them are not explored here (VC12_SameConnection does, for 2-3)
+	rt.Unwind(4*NC*NT + 100) // the message loop takes one turn per message; tables grow to NC*NT entries
+	w := newWorld(worldOpts{nBackends: 1, tcpListener: true})
+	var conns []*fakenet.TCPConn
+	for c := 0; c < NC; c++ {
+		conns = append(conns, fakenet.NewTCPConn(wListenAddr+":5060", "10.0.2.2:"+itoa(40000+c)))
+	}
+	var txns []c12Txn
+	for a := 0; a < NC*NT; a++ {
+		c, t := a%NC, a/NC
+		callID := "c" + itoa(c) + "t" + itoa(t)
+		req := "INVITE sip:svc@" + wService + " SIP/2.0\r\nVia: SIP/2.0/TCP 10.0.2.2:5060;branch=z9hG4bK" + callID + "\r\nFrom: <sip:u" + itoa(c) + "@example.com>;tag=f\r\nTo: <sip:svc@" + wService +
+			">\r\nCall-ID: " + callID + "\r\nCSeq: 1 INVITE\r\nContent-Length: 0\r\n\r\n"
+		before := len(w.bs[0].sent)
+		rt.Assert(w.deliverTCP(req, conns[c], "10.0.2.2", 40000+c, support), "request decodes")
+		rt.Assert(len(w.bs[0].sent) == before+1, "request relayed to the backend")
+		if len(w.bs[0].sent) != before+1 {
+			return
+		}
+		txns = append(txns, c12Txn{conn: c, callID: callID, relayed: w.bs[0].sent[before], method: "INVITE"})
+	}
+	oldestFirst := rt.Bool("oldest-first")
+	for k := range txns {
+		x := txns[k]
+		if !oldestFirst {
+			x = txns[len(txns)-1-k]
+		}
+		statuses := []int{200}
+		if x.callID == "c0t0" {
+			statuses = []int{180, 200}
+		}
+		for _, st := range statuses {
+			resp := "SIP/2.0 " + itoa(st) + " OK\r\n" + viaEcho(x.relayed) + "From: <sip:u" + itoa(x.conn) + "@example.com>;tag=f\r\nTo: <sip:svc@" + wService + ">;tag=t\r\nCall-ID: " + x.callID +
+				"\r\nCSeq: 1 INVITE\r\nContent-Length: 0\r\n\r\n"
+			total := 0
+			for c := range conns {
+				total += len(conns[c].Written)
+			}
+			mine := len(conns[x.conn].Written)
+			rt.Assert(w.deliver(resp, "10.0.1.1", 5060, support), "response decodes")
+			after := 0
+			for c := range conns {
+				after += len(conns[c].Written)
+			}
+			rt.Assert(len(conns[x.conn].Written) == mine+1 && after == total+1, "backlog: the response is written to the connection its request arrived on, and to no other")
+			rt.Assert(totalDials() == 0 && len(fakenet.Conns) == NC, "backlog: no new connection is opened for a response")
+		}
+	}
+	rt.Reach("end")
+}
